@@ -1782,6 +1782,14 @@ func canHandleInbound(msg *stun.Message) bool {
 func (a *Agent) handleInboundResponse(
 	remoteCandidate, local Candidate, remote netip.AddrPort, msg *stun.Message,
 ) bool {
+	if a.remotePwd == "" {
+		// Between Restart and SetRemoteCredentials there is no remote password: a response
+		// "authenticated" with the empty key could come from anyone.
+		a.log.Warnf("Discard success response from (%s), no remote credentials", remote)
+
+		return false
+	}
+
 	if err := stun.MessageIntegrity([]byte(a.remotePwd)).Check(msg); err != nil {
 		a.log.Warnf("Discard success response with broken integrity from (%s), %v", remote, err)
 
